@@ -120,17 +120,99 @@ theorem destructor_hangs_after_failed_creations :
     simp only [xAllBlocked, List.all_eq_true, List.mem_range, Bool.not_eq_eq_eq_not, Bool.not_true] at h1
     exact h1 t ht
 
+/-! ## round 4: the tail rule, finite progress, the REPAIRED failure branch (fixes/future/0006) -/
+
+/-- What the driver replays at the end of a run with refused threads (unrepaired branch) — `Thread::join` of a never-started thread
+    returns at once — rewrites the top frame of the joining (main) thread and nothing else: every ghost counter, record, future,
+    signal, the pool and every other thread are untouched, so every safety statement above that does not mention the main
+    thread's program counter carries over that step unchanged. -/
+theorem tail_rule_is_safety_neutral {x x' : XState} {t : Tid} (h : xpass x t = some x') :
+    x'.dead = x.dead ∧ x'.s.execCount = x.s.execCount ∧ x'.s.completed = x.s.completed ∧ x'.s.freeCount = x.s.freeCount ∧
+    x'.s.execArgs = x.s.execArgs ∧ x'.s.everCalls = x.s.everCalls ∧ x'.s.calls = x.s.calls ∧ x'.s.futs = x.s.futs ∧
+    x'.s.sigs = x.s.sigs ∧ x'.s.pool = x.s.pool ∧ x'.s.fault = x.s.fault ∧ x'.s.nextCall = x.s.nextCall ∧
+    (∀ u, u ≠ t → x'.s.threads u = x.s.threads u) ∧
+    (∃ th i rest, x.s.threads t = some th ∧ th.stack = .dJoin i :: rest) :=
+  xpass_changes_only_the_joining_stack h
+
+/-- In the REPAIRED branch the refused context stays in `_threads` as (terminated, never started); `Model.lean`'s own join loop
+    passes such a context without blocking and without an operation — the tail of `~ThreadPool` needs no extra rule there. -/
+theorem join_loop_skips_never_started_context (s : State) (t : Tid) (th : Thread) (p : Pool) (i : Nat) (c : Ctx)
+    (hp : s.pool = some p) (hc : p.ctxs[i]? = some c) (hn : c.tid = none) :
+    blockedFrame s t (.dJoin i) = false ∧
+    stepFrame s t th (.dJoin i) = (setThread s t (th.cont [if i + 1 < p.ctxs.length then .dJoin (i + 1) else .dFin]), []) :=
+  Nstd.Future.join_loop_skips_never_started_context s t th p i c hp hc hn
+
+/-- Positive liveness, the part that survives refused threads: on `XReach` the relation "an ordinary micro-step changes the state" is
+    well-founded — with any failure pattern a run makes finitely many state-changing steps (so it ends in a state where no
+    existing thread can change anything; WHICH states those are is the open part, see OPEN). -/
+theorem finite_progress_with_refused_threads {cfg : Config} (hrep : cfg.repaired = true) : WellFounded (XProgresses cfg) :=
+  xprogresses_wf hrep
+
+/-- A run of the repaired system without a refusal is a run of the model, state by state (the repair is invisible then: what the
+    2 820 byte-identical `cf=0` traces of original and repaired code show on the real code). -/
+theorem repaired_branch_without_refusal_is_the_model {cfg : Config} {x : XState} (h : XReachFix0 cfg x) :
+    Reach cfg x.s ∧ x.fixing = [] ∧ x.dead = [] :=
+  xreachfix0_reach h
+
+/-- REPAIRED branch: the documented limit stays — first worker refused, reservation undone (`_threadCount = 0`), job queued, client
+    asleep in `join()`, nothing can step. -/
+theorem repaired_branch_join_still_waits_when_no_worker_can_be_created :
+    ∃ x, XReachFix sfJoinCfg x ∧ xAllBlockedF x = true ∧ clientAsleepInJoin x.s 1 0 = true ∧ x.s.execCount 0 = 0 ∧
+      queuedJobs x.s = 1 ∧ poolThreadCount x.s = 0 := by
+  have h := sfxJoin_check
+  unfold sfxJoinCheck at h
+  cases hr : xrunFix 1 { s := State.init sfJoinCfg } sfxJoinSched with
+  | none => rw [hr] at h; exact absurd h (by decide)
+  | some x =>
+    rw [hr] at h
+    simp only [Bool.and_eq_true, beq_iff_eq] at h
+    obtain ⟨⟨⟨⟨⟨⟨h1, h2⟩, h3⟩, h4⟩, h5⟩, _⟩, _⟩ := h
+    exact ⟨x, xrunFix_reach XReachFix.init hr, h1, h2, h3, h4, h5⟩
+
+/-- REPAIRED branch, "a later creation succeeds": the first creation is refused, the next `start()` creates the worker; both calls
+    are executed exactly once, completed, freed, joined; the pool is deleted; every thread has finished (kernel-evaluated run of
+    the repaired real code, 106 scheduler steps). -/
+theorem repaired_branch_recovers_when_a_later_creation_succeeds :
+    ∃ x, XReachFix sfxRecoverCfg x ∧ allFinished x.s = true ∧ x.s.nextCall = 2 ∧ allCallsDone x.s = true ∧ x.s.pool.isNone = true := by
+  have h := sfxRecover_check
+  unfold sfxRecoverCheck at h
+  cases hr : xrunFix 1 { s := State.init sfxRecoverCfg } sfxRecoverSched with
+  | none => rw [hr] at h; exact absurd h (by decide)
+  | some x =>
+    rw [hr] at h
+    simp only [Bool.and_eq_true, beq_iff_eq] at h
+    obtain ⟨⟨⟨⟨⟨h1, h2⟩, h3⟩, _⟩, h5⟩, _⟩ := h
+    exact ⟨x, xrunFix_reach XReachFix.init hr, h1, h2, h3, h5⟩
+
+/-- REPAIRED branch on the request that hangs the original destructor (`destructor_hangs_after_failed_creations`): the run completes. -/
+theorem repaired_branch_destructor_completes :
+    ∃ x, XReachFix sfDtorCfg x ∧ allFinished x.s = true ∧ x.s.nextCall = 3 ∧ allCallsDone x.s = true ∧ x.s.pool.isNone = true := by
+  have h := sfxDtor_check
+  unfold sfxDtorCheck at h
+  cases hr : xrunFix 6 { s := State.init sfDtorCfg } sfxDtorSched with
+  | none => rw [hr] at h; exact absurd h (by decide)
+  | some x =>
+    rw [hr] at h
+    simp only [Bool.and_eq_true, beq_iff_eq] at h
+    obtain ⟨⟨⟨⟨⟨h1, h2⟩, h3⟩, _⟩, h5⟩, _⟩ := h
+    exact ⟨x, xrunFix_reach XReachFix.init hr, h1, h2, h3, h5⟩
+
 /-
 OPEN:
-  * `XReach` is exact up to the join loop of `~ThreadPool`: there the model's destructor waits for the refused thread (`dJoin` of
-    a thread that never finishes) while the code's `Thread::join` of a never-started thread returns at once.  The tail of the
-    destructor after that point (the remaining joins, deletion of the pool; only the main thread and workers finishing their
-    terminate jobs are alive) is replayed by the driver (rule `passDead`, correspondence run) but not covered by a theorem: it needs a
-    simulation "equal up to the main thread's program counter", i.e. that no step of a worker depends on the main thread's stack.
-  * positive liveness with refused creations: `join_eventually` under the hypothesis that, after the last refusal, a later `run()`
-    succeeds in creating a worker or a worker is alive (the leaked count makes `idleThreads <= 0` rarer, and after `_maxThreads`
-    refusals no worker is ever created again) — not stated; with the proposed repair (undo the increment when the start fails)
-    the model needs three more program counters in `Frame`, i.e. a rebuild of the whole proof chain.
+  * UNREPAIRED failure branch (`XReach`, the code before fixes/future/0006): exact up to the join loop of `~ThreadPool`; the rule the
+    driver replays there is proved safety-neutral (`tail_rule_is_safety_neutral`); the steps of the workers that are still finishing
+    their terminate jobs AFTER that rule fired are replayed, not proved (it needs "no step of a worker reads the main thread's stack").
+  * REPAIRED failure branch (`XReachFix`): modelled (handler pcs outside `Frame`), replayed step by step on the repaired real code
+    (510 failing runs, 0 differences), three kernel-evaluated runs above; the SAFETY theorems are NOT transferred to it: while the
+    handler runs, `_threadCount` is transiently one too high and other threads branch on it (`runRdTc`), so a repaired run is not a
+    run of `Reach` for any schedule, and every invariant proof of the chain takes `Reach` as hypothesis — it needs the three handler
+    pcs in `Frame` (rebuild of the chain), which this round was told not to do.  Runs without a refusal are covered
+    (`repaired_branch_without_refusal_is_the_model`).
+  * positive liveness (`join_eventually` under "a worker exists or a creation eventually succeeds"): NOT proved.  Proved: finite
+    progress (`finite_progress_with_refused_threads`); shown on an example (`repaired_branch_recovers_…`).  The obstacle is the same
+    in both branches: every deadlock-freedom lemma of the chain concludes "SOME thread is enabled" over `Reach`; in the unrepaired
+    encoding the refused thread (a never-scheduled worker at its first frame) is always such a thread, and the repaired runs are
+    outside `Reach`.
 -/
 
 end Nstd.Future.C10
